@@ -22,7 +22,7 @@ func init() { register(c05{}) }
 func (c05) ID() string    { return "C05" }
 func (c05) Level() string { return "exploration" }
 func (c05) Rule() string {
-	return "case = one logger of every kind (AsyncLogger with recording appenders; sync Logger over File+Console appenders; Console, File and RollingFile loggers, the latter sync or async=true, with or without separate .wf file, with or without a logger-level layout), built directly or by Refresh from a randomly spelled configuration; 1-3 producers submit events (all return before Stop); the async buffer is driven to a chosen occupancy 0..capacity with the worker idle, slow, or held at a gate that the scheduler opens at chosen steps; then Stop (or Destroy), sometimes twice. Oracles: Stop returns in the fair phase (else the exact deadlock/livelock verdict of the scheduler); at the very step it returns every accepted item is in its sink; no descriptor stays open; a running rolling appender holds at most two. Non-trivial = Stop was invoked with at least one item still buffered or in the worker's hand (async kinds) or at least one preemption (sync kinds); distinct = distinct context-switch trace hashes. The occupancy x worker-state histogram is reported as abstract states."
+	return "case = one logger of every kind (AsyncLogger with recording appenders; sync Logger over File+Console appenders; Console, File and RollingFile loggers, the latter sync or async=true, with or without separate .wf file, with or without a logger-level layout), built directly or by Refresh from a randomly spelled configuration; 1-3 producers submit events (all return before Stop); the async buffer is driven to a chosen occupancy 0..capacity with the worker idle, slow, or held at a gate that the scheduler opens at chosen steps; then Stop (or Destroy), sometimes twice. Oracles: Stop returns in the fair phase (else the exact deadlock/livelock verdict of the scheduler); at the very step it returns every accepted item is in its sink; no descriptor stays open; a running rolling appender holds at most two. Non-trivial = Stop was invoked with at least one item still buffered or in the worker's hand (async kinds) or at least one preemption (sync kinds); distinct = distinct context-switch trace hashes. The occupancy x worker-state histogram is reported as abstract states. Further kinds: two AsyncLoggers over one shared File appender with starved workers (Destroy must flush both); a sink that takes 120/400 ms of simulated time per item with a backlog of half to full capacity (Stop waits as long as the drain takes); a quarter of the directly built AsyncLoggers are in their second life (Start, 3 items, Stop, Start on the same object). The producer phase ends when the last log call returns, so backlogs are real."
 }
 func (c05) Decode(raw json.RawMessage) (any, error) {
 	var s AsyncScn
